@@ -18,6 +18,8 @@ Record fobs := {
   o_pred_err : bool;   (* the predicate was invoked during the call and returned an error *)
   o_final : option (option bytes);  (* None: unchanged (the harness compared it with its copy); Some x: Format("json") of the same event re-read later: after every later Process call of the batch (other
                               events, same goroutine) and after a closing round of Process calls from this and other goroutines *)
+  o_still : bool;      (* when re-read later: payload (deep snapshot, identity of error values), type, time and every OTHER entry of
+                          the table are still what they were right after the call *)
   o_later : N;         (* number of later Process calls (on other events) after which the stored value was first seen changed;
                           0 when it never changed *)
 }.
@@ -136,11 +138,13 @@ Definition chk_final (c : pcase) : list kind :=
           end
         else []).
 
+Definition chk_still (o : fobs) : list kind := if o_still o then [] else [KStoredMutated].
+
 Definition run_proc (c : pcase) : list kind :=
   let '(e', oc) := model_proc c in
   let o := c_obs c in
   chk_model c ++ chk_err oc o ++ chk_out oc o ++ chk_bytes (ev_fmt e') o ++ chk_other (ev_fmt e') o ++ chk_frame o ++
-  chk_line c ++ chk_errstored c ++ chk_final c.
+  chk_line c ++ chk_errstored c ++ chk_final c ++ chk_still o.
 
 (* one step of a forced FormattedAs / Format schedule: the observed result must be the model's *)
 Definition chk_step (m r : option (option bytes)) : bool :=
